@@ -111,6 +111,9 @@ class TLCResult:
         for m in re.finditer(r'^<<"' + re.escape(tag) + r'", "(.*)">>$', self.out, re.M):
             s = m.group(1).encode().decode("unicode_escape")
             res.append(json.loads(s))
+        # TLC's workers print in a nondeterministic order: canonical order, so that seeded choices made over this list
+        # (sampling, dtype/shape draws) are reproducible from VERIF_SEED alone
+        res.sort(key=lambda v: json.dumps(v, sort_keys=True))
         return res
 
     def error_trace(self) -> str:
